@@ -262,6 +262,13 @@ def _divide_units(unit1, unit2):
     return ret.as_coeff_unit()
 
 
+def _floor_divide_units(unit1, unit2):
+    # the floored ratio of two commensurable quantities is a pure number: the
+    # caller rescales the divisor to the dividend's unit first. (Operands of
+    # different dimensions are handed to _divide_units by the caller.)
+    return 1, Unit(registry=unit1.registry)
+
+
 @lru_cache(maxsize=128, typed=False)
 def _reciprocal_unit(unit):
     return 1, unit**-1
@@ -507,7 +514,7 @@ class unyt_array(np.ndarray):
         logaddexp: _return_without_unit,
         logaddexp2: _return_without_unit,
         true_divide: _divide_units,
-        floor_divide: _divide_units,
+        floor_divide: _floor_divide_units,
         negative: _passthrough_unit,
         power: _power_unit,
         remainder: _preserve_units,
@@ -1933,11 +1940,16 @@ class unyt_array(np.ndarray):
             ):
                 raise UnitOperationError(ufunc, u0, u1)
 
+            if unit_operator is _floor_divide_units and not u0.same_dimensions_as(u1):
+                # no common unit to floor in: the plain quotient rule
+                unit_operator = _divide_units
+
             if unit_operator in (
                 _preserve_units,
                 _comparison_unit,
                 _arctan2_unit,
                 _difference_units,
+                _floor_divide_units,
             ):
                 # check "is" equality first for speed
                 if u0 is not u1 and u0 != u1:
